@@ -291,6 +291,7 @@ func (st *contentState) writer() {
 		if err := eng.Stop(context.Background()); err != nil {
 			r.Logf("writer: Stop failed: %v", err)
 		}
+		st.checkNewFiles() // while curFP still names this phase's writer configuration
 	}
 	if len(st.wl.External) > 0 {
 		simrt.Gate("op", "external writer", nil)
